@@ -337,6 +337,37 @@ func (c *Ctx) trackerRules(rm map[string]string) {
 	if id := rm["R9"]; id != "" {
 		c.modeArgRule(id)
 	}
+	// ---- R10 answers are built from live state on every call
+	if id := rm["R10"]; id != "" {
+		trk := c.Named(c.State, "stateTracker")
+		fc := c.newFresh()
+		n := 0
+		if trk != nil {
+			ms := c.SSA.MethodSets.MethodSet(types.NewPointer(trk))
+			for i := 0; i < ms.Len(); i++ {
+				if !ms.At(i).Obj().Exported() {
+					continue
+				}
+				fn := c.SSA.MethodValue(ms.At(i))
+				if fn == nil || fn.Blocks == nil {
+					continue
+				}
+				for ri := 0; ri < fn.Signature.Results().Len(); ri++ {
+					if !isRefType(fn.Signature.Results().At(ri).Type()) {
+						continue
+					}
+					n++
+					ok := fc.funcDeepFresh(fn, ri, 0)
+					why := "built from the tracker's state on this call"
+					if !ok {
+						why = fc.why
+					}
+					r.Add(id, fmt.Sprintf("answer-fresh:%s#%d", fn.Name(), ri), c.Pos(fn.Pos()), c.FuncKey(fn), "the answer is a new snapshot of the current state (no cached or shared value can go stale)", ok, why)
+				}
+			}
+		}
+		r.Floor(id, "snapshot-returning tracker methods", n, 10)
+	}
 }
 
 func posFn(c *Ctx, fn *ssa.Function) string {
@@ -476,6 +507,61 @@ func (c *Ctx) gcRule(id string, m *trackerModel, nickDel *ssa.Function) {
 		}
 	}
 	r.Add(id, "self-part-deletes-channel", posFn(c, dis), "(*state.stateTracker).Dissociate", "removing the client itself from a channel forgets the channel", okSelf, "delChannel under nk == st.me")
+	// every destructive step of Dissociate happens only when the nick is actually on the channel
+	if dis != nil {
+		one := func(s map[*ssa.Function]bool) *ssa.Function {
+			for f := range s {
+				return f
+			}
+			return nil
+		}
+		chanDel := one(m.chanDel)
+		nEd := 0
+		for _, cs := range CallSites(dis) {
+			cal := cs.Common().StaticCallee()
+			if cal == nil {
+				continue
+			}
+			destructive := cal == m.delChanFn || cal == chanDel || cal == nickDel || cal == m.delNickFn
+			if !destructive && cal.Package() == c.State {
+				// a helper that performs the unlink
+				for _, x := range CallSites(cal) {
+					if xc := x.Common().StaticCallee(); xc == m.delChanFn || xc == chanDel || xc == nickDel || xc == m.delNickFn {
+						destructive = true
+					}
+				}
+			}
+			if !destructive {
+				continue
+			}
+			nEd++
+			member := false
+			for _, cd := range CondsAt(cs.Block()) {
+				cd = unwrapNot(cd)
+				var call *ssa.Call
+				if ex, ok := cd.V.(*ssa.Extract); ok && ex.Index == 1 {
+					call, _ = ex.Tuple.(*ssa.Call)
+				} else if cl, ok := cd.V.(*ssa.Call); ok {
+					call = cl
+				}
+				if call != nil && cd.True && call.Call.StaticCallee() != nil && c.readsMembership(call.Call.StaticCallee(), m) {
+					member = true
+				}
+			}
+			r.Add(id, "dissociate-needs-membership:"+cal.Name(), c.InstrPos(cs), c.FuncKey(dis), "Dissociate changes state only when the nick is on the channel", member, "dominated by the membership test being true")
+		}
+		r.Floor(id, "destructive steps in Dissociate", nEd, 1)
+	}
+}
+
+// readsMembership: fn is a membership query: it looks the channel up in the nick's (or the nick in the channel's) membership map.
+func (c *Ctx) readsMembership(fn *ssa.Function, m *trackerModel) bool {
+	for _, op := range mapOps(fn) {
+		if op.Kind == "lookup" && (op.Field == m.nkChans || op.Field == m.chNicks) {
+			return true
+		}
+	}
+	return false
 }
 
 func isZero(v ssa.Value) bool { k, ok := constInt(v); return ok && k == 0 }
@@ -699,17 +785,42 @@ func (c *Ctx) modeArgRule(id string) {
 					r2 := ReachFrom(x, false, end)
 					for y := range r2 {
 						if (hdr != nil && y == hdr) || (isReturn(y) && !isAdvance(y)) {
-							// reached the next mode character / the caller without an advance on this path
-							if isReturn(y) {
-								// a return is an un-advanced exit only if no advance precedes it on the path (ReachFrom stops at advances)
-								bad = c.InstrPos(x)
-							} else {
-								bad = c.InstrPos(x)
+							bad = "state written at " + c.InstrPos(x) + " with the argument list not advanced before the next mode character"
+						}
+					}
+				}
+				// an argument that is parsed or stored (handed to a non-logging call, or written) counts as consumed:
+				// every path from that use to the next mode character must advance the list
+				for _, ref := range *ia.Referrers() {
+					ld, ok := ref.(*ssa.UnOp)
+					if !ok || ld.Op != token.MUL {
+						continue
+					}
+					for _, use := range *ld.Referrers() {
+						consuming := false
+						switch t := use.(type) {
+						case *ssa.Call:
+							nme := calleeName(&t.Call)
+							if _, isB := t.Call.Value.(*ssa.Builtin); !isB && !strings.HasPrefix(nme, modPath+"/logging.") && !t.Call.IsInvoke() {
+								consuming = true
+							}
+						case *ssa.Store:
+							if _, local := t.Addr.(*ssa.Alloc); !local && t.Val == ssa.Value(ld) {
+								consuming = true
+							}
+						}
+						if !consuming || !reach[use] {
+							continue // not a consuming use, or the list was already advanced before it on every path
+						}
+						r3 := ReachFrom(use, false, end)
+						for y := range r3 {
+							if (hdr != nil && y == hdr) || (isReturn(y) && !isAdvance(y)) {
+								bad = "argument used at " + c.InstrPos(use) + " but the list is not advanced on every path to the next mode character"
 							}
 						}
 					}
 				}
-				r.Add(id, fmt.Sprintf("arg-consumed:%s#%d", f.Name(), n), c.InstrPos(in), c.FuncKey(f), "a mode argument that is written into tracker state is also consumed", bad == "", "state written at "+bad+" with the argument list not advanced before the next mode character")
+				r.Add(id, fmt.Sprintf("arg-consumed:%s#%d", f.Name(), n), c.InstrPos(in), c.FuncKey(f), "a mode argument that is parsed or written into tracker state is also consumed", bad == "", bad)
 			})
 		}
 	}
@@ -741,8 +852,9 @@ func runC12(c *Ctx) {
 	r.Rule("R6", "Wipe ranges over all tracked channels deleting each")
 	r.Rule("R7", "the client's own record (me) is stored only while constructing the tracker")
 	r.Rule("R8", "every insertion into the nick or channel map is dominated by the not-found edge of a lookup of the same key (no overwrite of a tracked entry)")
-	r.Rule("R9", "in channel mode parsing every path that writes state from the next mode argument advances the argument list before the next mode character")
-	c.trackerRules(map[string]string{"R1": "R1", "R2": "R2", "R3": "R3", "R4": "R4", "R5": "R5", "R6": "R6", "R7": "R7", "R8": "R8", "R9": "R9"})
+	r.Rule("R9", "in channel mode parsing every path that parses, stores or writes state from the next mode argument advances the argument list before the next mode character")
+	r.Rule("R10", "every pointer/map answer of an exported tracker method is built anew from the tracker's state on that call (deep-fresh), so no answer can lag behind the state")
+	c.trackerRules(map[string]string{"R1": "R1", "R2": "R2", "R3": "R3", "R4": "R4", "R5": "R5", "R6": "R6", "R7": "R7", "R8": "R8", "R9": "R9", "R10": "R10"})
 }
 
 // ---------------- C13 ----------------
@@ -1009,7 +1121,7 @@ func runC13(c *Ctx) {
 	r.Floor("R3", "NewNick call sites", nNN, 2)
 
 	// ---- R4
-	c.trackerRules(map[string]string{"R1": "R4", "R3": "R4", "R4": "R4", "R5": "R4", "R7": "R4", "R8": "R4", "R9": "R4"})
+	c.trackerRules(map[string]string{"R1": "R4", "R3": "R4", "R4": "R4", "R5": "R4", "R7": "R4", "R8": "R4", "R9": "R4", "R10": "R4"})
 	est := c.Func(c.Client, "(*Conn).EnableStateTracking")
 	okSeed := false
 	if est != nil {
@@ -1137,6 +1249,24 @@ func (c *Ctx) namesRule(h *ssa.Function) {
 			ok := c.LoopDepth(cs.Block()) >= 1
 			r.Add("R1", "353:associate", c.InstrPos(cs), c.FuncKey(h), "each listed name is associated with the channel", ok, "inside the loop over names")
 		case "ChannelModes":
+			// the privilege shown by NAMES is recorded for every listed name: not only for names first seen on this line
+			for _, cd := range CondsAt(cs.Block()) {
+				cd2 := unwrapNot(cd)
+				if ex, ok := cd2.V.(*ssa.Extract); ok {
+					if tc, ok := ex.Tuple.(*ssa.Call); ok && c.isTrackerCall(tc) && tc.Call.Method.Name() == "IsOn" {
+						r.Add("R1", "353:prefix-unconditional", c.InstrPos(cs), c.FuncKey(h), "the NAMES prefix is applied whether or not the nick was already on the channel", false, "the privilege update depends on the IsOn result at "+c.InstrPos(cd.If))
+					}
+				}
+				if bo, ok := cd2.V.(*ssa.BinOp); ok && (isNilConst(bo.X) || isNilConst(bo.Y)) {
+					other := bo.X
+					if isNilConst(bo.X) {
+						other = bo.Y
+					}
+					if tc, ok := other.(*ssa.Call); ok && c.isTrackerCall(tc) && tc.Call.Method.Name() == "GetNick" {
+						r.Add("R1", "353:prefix-unconditional", c.InstrPos(cs), c.FuncKey(h), "the NAMES prefix is applied whether or not the nick was already known", false, "the privilege update depends on GetNick at "+c.InstrPos(cd.If))
+					}
+				}
+			}
 			if hc, ok := cs.Common().Args[1].(*ssa.Call); ok && !hc.Call.IsInvoke() && hc.Call.StaticCallee() != nil && c.InModuleFn(hc.Call.StaticCallee()) {
 				// prefix -> mode mapping computed by a helper: read it from the helper's returns
 				hf := hc.Call.StaticCallee()
